@@ -75,6 +75,10 @@ CHECKS["C14"]=dict(level="exploration", ref="§C14",
    technique="finite product enumeration of abstract states x encodings x receivers x model pairing with spec-based writers; absolute and differential oracles",
    text="Abstract machine states (registers, IM, I/R boundary values, border, six paging values incl. shadow screen and lock, position-coded RAM in all banks, two pictures, AY register file) are written by independent SNA/SZX/SCR writers in every equivalent encoding (SNA; SZX stored, zlib, six chunk orders, unknown chunks interleaved, v1.4/1.5) and loaded into six receivers (fresh, halted, mid prefix, paging locked, everything different, ROM running mid-frame); every item is compared with the abstract state (registers, IFFs, latches cleared, border, paging latch+lock+map, all RAM banks, AY registers read back through the ports, the picture after three frames), all encodings x receivers of a state must end in the same digest, plus audible AY state, HALTED in both PC conventions, EILAST, files of the other model, SCR into four receivers.",
    note="Exploration level: states are a structured alphabet (6 quick / 30 thorough variants per machine). Writers follow the published layouts. Not judged: which HALTED PC convention a file uses; items a format does not carry.")
+CHECKS["C15"]=dict(level="fault_enumeration", ref="§C15",
+   technique="exhaustive input-family and asset-fault enumeration on every loader entry point with panic, hang, allocation and asset-call monitors",
+   text="Every loader entry point (SNA, SZX, TAP incl. playing and fast-load requests, SCR, ROM set, gzip-wrapped SNA, VTX) on both machines is driven with: all byte strings up to length 2 (quick: all of length <=1 and a structured quarter-thousand of length 2) and short alphabet strings; every prefix of every seed file (stride in quick for the big ones); boundary values of every structural field alone and in all pairs; every single-byte substitution in header regions plus a stride through the data; an asset fault of each kind {Err, one-byte short read, Ok(0), seek failure} at every call index (all pairs in thorough) and chunked reads. A case fails on a panic, on not returning within the watchdog limit, on exceeding the asset-call budget, on a single allocation out of proportion to the input, or when the emulator cannot emulate further frames afterwards.",
+   note="Four exhaustive families, not all strings up to 160 KiB. Hung cases are detected by an in-process watchdog (thread abandoned and replaced). Not judged: vtx::Player.")
 NOT_YET = {
 }
 def main():
